@@ -188,6 +188,7 @@ theorem wake_own {g : Graph} {lim : Option Nat} {s s' : St} {l : Label} (h : Ste
   | cRecvLast _ _ _ _ => exact absurd rfl hcr
   | cRecvMore _ _ _ _ => exact absurd rfl hcr
   | cCtxDone _ _ _ _ => exact absurd rfl hcd
+  | extCancel _ => exact wake_mono id (getSched_congr rfl rfl rfl w) hW
 
 /-! ### frame facts -/
 
@@ -296,6 +297,7 @@ theorem step_schedVerts {g : Graph} {lim : Option Nat} {s s' : St} {l : Label} (
   | wDone _ => exact hsv w' x (by rw [← hx]; exact (getSched_congr rfl rfl rfl w').symm)
   | wSend _ => exact hsv w' x (by rw [← hx]; exact (getSched_congr rfl rfl rfl w').symm)
   | wExit _ => exact hsv w' x (by rw [← hx]; exact (getSched_congr rfl rfl rfl w').symm)
+  | extCancel _ => exact hsv w' x (by rw [← hx]; exact (getSched_congr rfl rfl rfl w').symm)
   | cRecvLast _ _ _ _ =>
     cases w' with
     | M => exact hsv .M x hx
